@@ -400,6 +400,7 @@ func finish(c *Check, rc *RunCtx, rep *Report, start time.Time) int {
 	for _, k := range kkeys {
 		fmt.Printf("KNOWN-FINDING: property=%s %s [%s %s] (%d executions)\n", c.ID, k.What, k.Clause, sig(k.Attrs), knownHits[k])
 	}
+	_ = os.Remove(filepath.Join(VerifDir, ".build", "last-"+c.ID+".json"))
 	if len(rep.Broken) > 0 {
 		for i, b := range rep.Broken {
 			if i >= 10 {
@@ -410,7 +411,6 @@ func finish(c *Check, rc *RunCtx, rep *Report, start time.Time) int {
 		}
 		return 2
 	}
-	_ = os.Remove(filepath.Join(VerifDir, ".build", "last-"+c.ID+".json"))
 	if len(unknown) > 0 || len(knownHits) > 0 {
 		// full dump for triage (not evidence): every violation group with its first instance
 		type dumpGroup struct {
